@@ -41,15 +41,49 @@ macro_rules! wal_l1 {
     };
 }
 
+/// As `wal_l1`, for concrete total lengths (shape concrete, content symbolic).
+macro_rules! wal_l1c {
+    ($name:ident, $ty:ty, $n:expr, [$($len:expr),*], $pin:expr) => {
+        proof! {
+            fn $name() {
+                $(
+                {
+                    let mut buf: [u8; $n] = kani::any();
+                    ($pin)(&mut buf);
+                    let len: usize = $len;
+                    if let Ok(v) = <$ty>::from_payload_bytes(&buf[..len]) {
+                        let out = v.to_payload_bytes();
+                        assert!(out.len() == len, "accepted record re-encodes to a different length");
+                        let mut flat = [0u8; $n];
+                        flat[..len].copy_from_slice(&out);
+                        let mut i = 0;
+                        while i < $n {
+                            if i < len { assert!(flat[i] == buf[i], "accepted record re-encodes to different bytes"); }
+                            i += 1;
+                        }
+                        match <$ty>::from_payload_bytes(&out) {
+                            Ok(v2) => assert!(v2 == v, "decode(encode(v)) != v"),
+                            Err(_) => assert!(false, "encoding of a decoded record does not decode"),
+                        }
+                        core::mem::forget(out);
+                    }
+                }
+                )*
+                reach!();
+            }
+        }
+    };
+}
+
 //@ also=C13 tier=quick timeout=900 mem=8 bits=1040 unwind=4 unwindset="c12_walrec=164;memcmp=34" fns=warp_core::causal_wal::SubmissionAcceptanceRecord::from_payload_bytes,SubmissionAcceptanceRecord::to_payload_bytes,WalPayloadCursor::read_hash,read_optional_hash,finish
-//@ bounds="every byte string of length 0..=130 whose option tag (byte 64) is 0 (valid length 129)"
+//@ bounds="every byte string of length 128, 129 (valid) and 130 whose option tag (byte 64) is 0"
 //@ desc="submission acceptance record without idempotency key: accepted => re-encodes to exactly the same bytes; short and trailing input rejected"
-wal_l1!(c12_wal_submission_acceptance_none, SubmissionAcceptanceRecord, 130, |b: &mut [u8; 130]| b[64] = 0);
+wal_l1c!(c12_wal_submission_acceptance_none, SubmissionAcceptanceRecord, 130, [128, 129, 130], |b: &mut [u8; 130]| b[64] = 0);
 
 //@ also=C13 tier=quick timeout=900 mem=8 bits=1296 unwind=4 unwindset="c12_walrec=164;memcmp=34" fns=warp_core::causal_wal::SubmissionAcceptanceRecord::from_payload_bytes,SubmissionAcceptanceRecord::to_payload_bytes,WalPayloadCursor::read_hash,read_optional_hash,finish
-//@ bounds="every byte string of length 0..=162 whose option tag (byte 64) is 1 (valid length 161)"
+//@ bounds="every byte string of length 160, 161 (valid) and 162 whose option tag (byte 64) is 1"
 //@ desc="submission acceptance record with idempotency key: accepted => re-encodes to exactly the same bytes"
-wal_l1!(c12_wal_submission_acceptance_some, SubmissionAcceptanceRecord, 162, |b: &mut [u8; 162]| b[64] = 1);
+wal_l1c!(c12_wal_submission_acceptance_some, SubmissionAcceptanceRecord, 162, [160, 161, 162], |b: &mut [u8; 162]| b[64] = 1);
 
 //@ also=C13 tier=quick timeout=600 mem=8 bits=1304 unwind=4 fns=warp_core::causal_wal::SubmissionAcceptanceRecord::from_payload_bytes,WalPayloadCursor::read_optional_hash
 //@ bounds="every byte string of length 65..=162 whose option tag (byte 64) is neither 0 nor 1"
@@ -110,6 +144,40 @@ proof! {
         let mut i = 0;
         while i < CAUSAL_TICK_RECEIPT_REF_LEN { assert!(o[i] == b[i]); i += 1; }
         assert!(CausalTickReceiptRef::from_canonical_bytes(o) == v);
+        reach!();
+    }
+}
+
+//@ also=C13 tier=quick timeout=1500 mem=12 bits=4224 unwind=4 unwindset="c12_walrec=10;memcmp=34;to_canonical_bytes=6;from_canonical_bytes=6" fns=warp_core::causal_wal::WalReceiptCorrelationRecord::from_payload_bytes,warp_core::causal_receipt::CausalTickReceiptRef::from_canonical_bytes
+//@ bounds="receipt-correlation images with magic ERCOR002, a symbolic child coordinate, declared parent count 2 and two fully symbolic parent coordinates (exact length 544), plus the same image one byte short and one byte long"
+//@ desc="receipt-correlation record: accepted => the two cited parents are strictly ascending in the coordinate order the encoder sorts by (worldline, tick, global tick, hashes) - equal or descending parents are rejected, not normalised - and decode returns exactly the coordinates in the image; short/long images are rejected"
+proof! {
+    fn c12_wal_receipt_correlation_parent_order() {
+        use warp_core::causal_wal::WalReceiptCorrelationRecord;
+        let mut img: [u8; 545] = kani::any();
+        let magic = *b"ERCOR002";
+        let mut i = 0;
+        while i < 8 { img[i] = magic[i]; i += 1; }
+        let count = 2u64.to_le_bytes();
+        let mut i = 0;
+        while i < 8 { img[184 + i] = count[i]; i += 1; }
+        let coord = |off: usize| {
+            let mut b = [0u8; CAUSAL_TICK_RECEIPT_REF_LEN];
+            b.copy_from_slice(&img[off..off + CAUSAL_TICK_RECEIPT_REF_LEN]);
+            CausalTickReceiptRef::from_canonical_bytes(b)
+        };
+        match WalReceiptCorrelationRecord::from_payload_bytes(&img[..544]) {
+            Ok(r) => {
+                let (p0, p1) = (coord(192), coord(368));
+                assert!(p0 < p1, "receipt-correlation record with unsorted or duplicate parents accepted");
+                assert!(r.receipt_ref == coord(8) && r.causal_parent_receipts.len() == 2
+                    && r.causal_parent_receipts[0] == p0 && r.causal_parent_receipts[1] == p1);
+                core::mem::forget(r);
+            }
+            Err(e) => core::mem::forget(e),
+        }
+        assert!(WalReceiptCorrelationRecord::from_payload_bytes(&img[..543]).is_err());
+        assert!(WalReceiptCorrelationRecord::from_payload_bytes(&img[..545]).is_err());
         reach!();
     }
 }
